@@ -371,7 +371,8 @@ class PSBTView:
     def tx_version(self):
         if self._tx_version is None:
             v = self.get_value(b"\x02")
-            self._tx_version = int.from_bytes(v, "little") if v is not None else 0
+            # same fallback as PSBT.tx: both entry points must sign the same transaction
+            self._tx_version = int.from_bytes(v, "little") if v is not None else 2
         return self._tx_version
 
     def seek_to_value(self, key_start, from_current=False):
